@@ -521,17 +521,48 @@ theorem removeOne_eq_idx (oid : Bytes) (es : List Ext) :
 
 theorem neg_one_eq : I64.neg (1 : Int) = -1 := by decide
 
-/-- once an index has been recorded, a further match is the "multiple extensions" error -/
-theorem findLoop_found (oid : Bytes) (es : List Ext) (i a : Int) (ha : a ≠ -1) :
+/-! What the regenerated loop body does, in three facts. They are proved by splitting the regenerated `if`s and closing the
+arithmetic with `omega`, so an equivalent rewrite of the test (`extAt >= 0`) re-proves while a different test does not; everything
+below uses only these three facts. -/
+
+/-- a match after an index has been recorded: the "multiple extensions" error -/
+theorem step_found (a i : Int) (ha : 0 ≤ a) : Gen.removeExtensionStep a i true = none := by
+  unfold Gen.removeExtensionStep
+  simp only [if_true, neg_one_eq]
+  split
+  · rfl
+  · rename_i hc; exfalso; simp only [decide_eq_true_eq] at hc; omega
+
+/-- the first match records its index -/
+theorem step_first (i : Int) : Gen.removeExtensionStep (-1) i true = some i := by
+  unfold Gen.removeExtensionStep
+  simp only [if_true, neg_one_eq]
+  split
+  · rename_i hc; exfalso; simp only [decide_eq_true_eq] at hc; omega
+  · rfl
+
+/-- no match: nothing changes -/
+theorem step_other (a i : Int) : Gen.removeExtensionStep a i false = some a := by
+  unfold Gen.removeExtensionStep
+  simp
+
+/-- the test after the loop -/
+theorem absent_iff (a : Int) (ha : a = -1 ∨ 0 ≤ a) : Gen.removeExtensionAbsent a = true ↔ a = -1 := by
+  unfold Gen.removeExtensionAbsent
+  simp only [neg_one_eq, decide_eq_true_eq]
+  first | done | omega
+
+theorem findLoop_found (oid : Bytes) (es : List Ext) (i a : Int) (ha : 0 ≤ a) :
     findLoop oid es i a = if hasOid oid es then none else some a := by
   induction es generalizing i with
   | nil => simp [findLoop, hasOid]
   | cons e es ih =>
-    simp only [findLoop, Gen.removeExtensionStep, neg_one_eq]
+    simp only [findLoop]
     by_cases he : e.oid = oid
-    · simp [he, ha, hasOid]
+    · subst he
+      simp [step_found a i ha, hasOid]
     · have hb : (e.oid == oid) = false := by simpa using he
-      simp only [hb, Bool.false_eq_true, if_false]
+      simp only [hb, step_other]
       rw [ih]
       simp [hasOid, hb]
 
@@ -543,14 +574,14 @@ theorem findLoop_init (oid : Bytes) (es : List Ext) (i : Int) (hi : 0 ≤ i) :
   induction es generalizing i with
   | nil => simp [findLoop, idxOne, hasOid]
   | cons e es ih =>
-    simp only [findLoop, Gen.removeExtensionStep, neg_one_eq, idxOne]
+    simp only [findLoop, idxOne]
     by_cases he : e.oid = oid
     · subst he
-      have hf := findLoop_found e.oid es (i + 1) i (by omega)
-      simp only [beq_self_eq_true, if_true, ne_eq, not_true_eq_false, decide_false, Bool.false_eq_true, if_false, hf]
+      simp only [beq_self_eq_true, step_first, if_true]
+      rw [findLoop_found e.oid es (i + 1) i hi]
       cases hh : hasOid e.oid es <;> simp [hasOid, hh]
     · have hb : (e.oid == oid) = false := by simpa using he
-      simp only [hb, Bool.false_eq_true, if_false, he]
+      simp only [hb, step_other, he, if_false]
       rw [ih (i + 1) (by omega)]
       cases hk : idxOne oid es with
       | none => simp [hasOid, hb]
@@ -558,12 +589,20 @@ theorem findLoop_init (oid : Bytes) (es : List Ext) (i : Int) (hi : 0 ≤ i) :
 
 theorem removeOneGo_eq (oid : Bytes) (es : List Ext) : removeOneGo oid es = removeOne oid es := by
   rw [removeOne_eq_idx]
-  simp only [removeOneGo, findLoop_init oid es 0 (Int.le_refl 0), Gen.removeExtensionAbsent, neg_one_eq]
+  simp only [removeOneGo, findLoop_init oid es 0 (Int.le_refl 0)]
   cases hk : idxOne oid es with
-  | none => cases hasOid oid es <;> simp
+  | none =>
+    cases hasOid oid es
+    · have := (absent_iff (-1) (Or.inl rfl)).mpr rfl
+      simp [this]
+    · simp
   | some k =>
-    have : ¬ ((0 : Int) + (k : Int) = -1) := by omega
-    simp [this]
+    have hne : Gen.removeExtensionAbsent (k : Int) = false := by
+      have := absent_iff (k : Int) (Or.inr (by omega))
+      cases h : Gen.removeExtensionAbsent (k : Int)
+      · rfl
+      · have := this.mp h; omega
+    simp [hne]
 
 /-! ### `wf` under a smaller extension list -/
 
